@@ -15,10 +15,12 @@
  */
 #pragma once
 
+#include <unifex/get_stop_token.hpp>
 #include <unifex/manual_lifetime.hpp>
 #include <unifex/receiver_concepts.hpp>
 #include <unifex/scheduler_concepts.hpp>
 #include <unifex/type_traits.hpp>
+#include <unifex/unstoppable_token.hpp>
 
 #include <unifex/detail/prologue.hpp>
 
@@ -26,7 +28,10 @@ namespace unifex {
 
 // When started with start(outer), will call outer.forward_set_value() on the
 // execution context obtained by scheduling on
-// get_scheduler(outer.get_receiver()). If schedule() fails or is cancelled,
+// get_scheduler(outer.get_receiver()). The hop is not cancellable: by the time
+// it is started the outcome of the outer operation has been decided (a mutex
+// was acquired, a payload handed over), so the schedule operation is given an
+// unstoppable token rather than the final receiver's. If schedule() fails,
 // will forward set_error()/set_done() to outer.get_receiver().
 // outer.get_receiver() must return FinalReceiver&.
 // outer.forward_set_value must not throw.
@@ -69,8 +74,14 @@ private:
       unifex::set_done(std::move(outer_.get_receiver()));
     }
 
-    template(typename CPO)                       //
-        (requires is_receiver_query_cpo_v<CPO>)  //
+    friend unstoppable_token
+    tag_invoke(tag_t<get_stop_token>, const receiver&) noexcept {
+      return {};
+    }
+
+    template(typename CPO)                                   //
+        (requires is_receiver_query_cpo_v<CPO> AND(          //
+            !same_as<CPO, tag_t<get_stop_token>>))           //
         friend auto tag_invoke(CPO cpo, const receiver& r) noexcept(
             std::is_nothrow_invocable_v<CPO, const FinalReceiver&>)
             -> std::invoke_result_t<CPO, const FinalReceiver&> {
